@@ -22,8 +22,8 @@ from ..gen import dlis as GD, dlislog as GL, bit as GB
 
 LEVEL = 'model_checking'
 
-DTYPE = {2: np.float32, 7: np.float64, 12: np.int8, 13: np.int16, 14: np.int32, 15: np.uint8, 16: np.uint16, 17: np.uint32, 5: np.float32}
-RCSIZE = {2: 4, 7: 8, 12: 1, 13: 2, 14: 4, 15: 1, 16: 2, 17: 4, 5: 4}
+DTYPE = {2: np.float32, 7: np.float64, 12: np.int8, 13: np.int16, 14: np.int32, 15: np.uint8, 16: np.uint16, 17: np.uint32, 5: np.float32, 6: np.float32}
+RCSIZE = {2: 4, 7: 8, 12: 1, 13: 2, 14: 4, 15: 1, 16: 2, 17: 4, 5: 4, 6: 4}
 
 
 def value_of(rc, r, c, e):
@@ -32,6 +32,9 @@ def value_of(rc, r, c, e):
         return float(r) * 0.5 + c * 1024.0 + e * 0.125
     if rc == 5:
         return float(r) * 2.0 + c * 256.0 + e + 0.5
+    if rc == 6:
+        # VSINGL: odd and even exponents, both signs, fraction bits in all three fraction bytes
+        return (-1.0 if (r + c) % 3 == 0 else 1.0) * (float(r) * 0.75 + c * 32.0 + e * 0.0078125 + 0.00048828125)
     if rc == 12:
         return (r % 100) - 60 + (e % 2)
     if rc == 15:
@@ -54,6 +57,10 @@ def record_of(rc, v, c, e):
         r = (float(v) - c * 1024.0 - e * 0.125) / 0.5
     elif rc == 5:
         r = (float(v) - c * 256.0 - e - 0.5) / 2.0
+    elif rc == 6:
+        r = (abs(float(v)) - c * 32.0 - e * 0.0078125 - 0.00048828125) / 0.75
+        if r == int(r) and r >= 0 and value_of(6, int(r), c, e) != float(v):
+            return None
     elif rc == 12:
         r = int(v) + 60 - (e % 2)
     elif rc == 15:
@@ -83,7 +90,7 @@ def build(rng, quick, origin=None):
         nch = rng.choice([1, 2, 3, 6])
         chs = []
         for c in range(nch):
-            rc = rng.choice([2, 7]) if c == 0 else rng.choice([2, 7, 12, 13, 14, 15, 16, 17, 5])
+            rc = rng.choice([2, 7]) if c == 0 else rng.choice([2, 7, 12, 13, 14, 15, 16, 17, 5, 6, 6])
             dims = [1] if c == 0 else rng.choice([[1], [1], [2], [3], [2, 2], [2, 3]])
             chs.append(dict(name=('T%dC%d' % (t, c)).encode(), long_name=b'long name %d' % c, rc=rc, units=b'm' if c == 0 else b'', dims=dims))
         chans_all += chs
